@@ -285,6 +285,12 @@ func (w *sworld) values(pn blob.Ref, attr string, at time.Time) []string {
 	return w.w.Values(pn, attr, at, 1, true)
 }
 
+// valuesList: the uncanonicalised value list (repeated add-attribute claims of one value count
+// twice): what numValue counts.
+func (w *sworld) valuesList(pn blob.Ref, attr string, at time.Time) []string {
+	return w.w.ValuesList(pn, attr, at, 1, true)
+}
+
 // modtime: latest date among the permanode's (non-deleted) attribute claims.
 func (w *sworld) modtime(pn blob.Ref) (time.Time, bool) {
 	var t time.Time
